@@ -535,7 +535,7 @@ func modelLines(r *caseRun) []string {
 }
 
 var f28Kinds = map[string]bool{"leak": true, "panic": true, "closed-while-live": true}
-var f16Kinds = map[string]bool{"leak": true, "panic": true}
+var f16Kinds = map[string]bool{"leak": true, "panic": true, "closed-while-live": true}
 
 func judgeProvider(c pcase, r *caseRun, outs []string, verbose bool) {
 	finding := ""
